@@ -26,5 +26,14 @@ CHECKS['C07'] = dict(category='proof',
    note='Assumed: floats as reals (float cumulative-sum shortfall is outside the claim); rng.random() uniform on [0,1) and independent; numpy elementwise semantics; '
         'get_deformation returns a permutation (proved in C08); log strictly increasing. BP-OSD channel priors are checked under C05.',
    technique='pointwise VCs from the AST (abstract arrays, derived loop rule), z3 real arithmetic; counter-model replay; run-time contracts')
+CHECKS['C01'] = dict(category='proof',
+   text='For 15 of the 16 lattice classes get_stabilizer is executed symbolically at a symbolic location on a lattice of symbolic size; coordinate lists and '
+        'logical supports are summarised by the derived builder rule. z3 discharges, with no bound on L: any two generators commute (15 classes, incl. the four '
+        'colour codes), every listed logical commutes with every generator and X_i/Z_j anticommute iff i=j (11 classes; XCube for its L-dependent k). '
+        'rank(H)=n-k, HollowRhombic, colour-code logicals, pairs whose overlap grows with L, and every clause on every deformed code are run-time contracts on '
+        'real objects (bounded, named as such in the evidence). Quick tier omits the 22 slowest obligations (Color666Toric, one RhombicToric pair).',
+   note='Supported-size families are preconditions. Trusted: z3 (LIA + qe), the pyvc executor and builder rule (every counter-model is replayed on the real '
+        'class). Known findings F-C01-a/b/c (RotatedToric3D odd x odd, non-square Color488 / Color666Toric) are proved-around by conjoining the negated region.',
+   technique='VCs from the AST of each lattice class with symbolic lattice size (symbolic execution + builder-rule summaries), z3 LIA; run-time contracts for rank')
 _PENDING = 'check under construction in this session (contract-based check planned in DESIGN.md section 3); not claimed until its command exists'
 NOT_APPLICABLE = {p: _PENDING for p in ['C%02d' % i for i in range(1, 21)]}
